@@ -865,10 +865,6 @@ where
         let bytes_to_write = core::cmp::min(buffer.len(), bytes_until_max);
         let mut written = 0;
 
-        // Stamp the entry now: if the volume fills up part-way through, what
-        // has been stored by then is still a modification made at this time.
-        data.open_files[file_idx].entry.attributes.set_archive(true);
-        data.open_files[file_idx].entry.mtime = self.time_source.get_timestamp();
 
         while written < bytes_to_write {
             let mut current_cluster = data.open_files[file_idx].current_cluster;
@@ -935,6 +931,14 @@ where
                 .copy_from_slice(&buffer[written..written + to_copy]);
             debug!("Writing block {:?}", block_idx);
             data.block_cache.write_back()?;
+            if written == 0 {
+                // Stamp the entry as soon as something has been stored: if the
+                // volume fills up part-way through, what is there by then is
+                // still a modification made at this time (and a write that
+                // stores nothing is none).
+                data.open_files[file_idx].entry.attributes.set_archive(true);
+                data.open_files[file_idx].entry.mtime = self.time_source.get_timestamp();
+            }
             written += to_copy;
             data.open_files[file_idx].current_cluster = current_cluster;
 
